@@ -599,6 +599,55 @@ def main():
         print("t0: Spade/Generated/Leaf.lean unchanged")
     for n in notes:
         print("t0:", n)
+    shapes()
+
+
+def shapes():
+    """Shape recognition for code whose model is written by hand (no expression translation):
+    the statements of the re-ordering tail of `bulk_load_stable` must be the ones the model
+    `Spade/Algo/Stable.lean` mirrors, in this order.  The result is a generated Boolean that the
+    property module of C10 requires to be `true`, so an unrecognised shape breaks C10's proof
+    obligation only."""
+    import re
+    ok = False
+    why = ""
+    try:
+        src = strip_comments(read("src/delaunay_core/bulk_load.rs"))
+        _, body = find_fn(src, "bulk_load_stable")
+        flat = re.sub(r"\s+", " ", body)
+        pats = [
+            r"\.enumerate\(\) \.map\(\|\(index, data\)\| PointWithIndex \{ index, data \}\)",
+            r"let mut with_indices = constructor\(elements\)\?;",
+            r"if with_indices\.num_vertices\(\) != num_original_elements \{",
+            r"let mut no_gap = \(0usize\.\.with_indices\.num_vertices\(\)\)\.collect::<Vec<_>>\(\);",
+            r"no_gap\.sort_unstable_by_key\(\|elem\| \{ with_indices \.vertex\(FixedVertexHandle::new\(\*elem\)\) \.data\(\) \.index \}\);",
+            r"for \(sequential_index, vertex\) in no_gap\.into_iter\(\)\.enumerate\(\) \{ with_indices \.vertex_data_mut\(FixedVertexHandle::new\(vertex\)\) \.index = sequential_index; \}",
+            r"let mut current_index = 0; loop \{ if current_index >= with_indices\.num_vertices\(\) \{ break; \}",
+            r"let new_index = FixedVertexHandle::new\(current_index\); let old_index = with_indices\.vertex\(new_index\)\.data\(\)\.index;",
+            r"if current_index == old_index \{ current_index \+= 1; \} else \{ with_indices \.s_mut\(\) \.swap_vertices\(FixedVertexHandle::new\(old_index\), new_index\); \}",
+            r"dcel\.map_vertices\(\|point_with_index\| point_with_index\.data\)",
+        ]
+        pos = 0
+        ok = True
+        for pat in pats:
+            m = re.compile(pat).search(flat, pos)
+            if not m:
+                ok = False
+                why = "statement not found (in order): " + pat[:60]
+                break
+            pos = m.end()
+    except Exception as ex:
+        why = str(ex)
+    text = ("/- GENERATED by translator/t0.py from /repo's current source — do not edit. -/\n"
+            "namespace Spade.Generated\n"
+            "/-- the re-ordering tail of `bulk_load_stable` has the statements mirrored by `Spade.Stable` -/\n"
+            f"def stableTailRecognised : Bool := {'true' if ok else 'false'}\n"
+            "end Spade.Generated\n")
+    path = os.path.join(OUT, "Shapes.lean")
+    old = open(path).read() if os.path.exists(path) else None
+    if old != text:
+        open(path, "w").write(text)
+    print("t0: shape bulk_load_stable tail:", "recognised" if ok else ("NOT recognised: " + why))
 
 
 if __name__ == "__main__":
